@@ -6,6 +6,6 @@ out=/verif/obligations.lock; : > $out
 for f in /verif/evidence/C*.json; do
   p=$(jq -r .property_id $f)
   [ "$(jq -r .violations $f)" = "0" ] || { echo "skip $p (violations)"; continue; }
-  jq -r --arg p "$p" '.coverage.per_obligation[] | select((.kind=="post" or .kind=="lemma") and .status=="unsat") | "\($p) \(if .func=="lemma" then .name else .func+"::"+.name end)"' $f >> $out
+  jq -r --arg p "$p" '.coverage.per_obligation[] | select((.kind=="post" or .kind=="lemma") and .status=="unsat") | "\($p) \(.name)"' $f >> $out
 done
 sort -u -o $out $out; wc -l $out
